@@ -42,8 +42,13 @@ def ref_weights(dim, shape, dx, pos, shift=None):
     return out
 
 
+# forcing points (2-D cylinder, sphere equator): resolved like the grid (default), coarser than 2 dx, finer than dx / 2
+# (the library only warns about the last two; the coefficient scaling must not depend on the branch taken)
+MARKER_RESOLUTIONS = {None: (8, 6), "coarse": (2, 3), "fine": (40, 20)}
+
+
 class Body:
-    def __init__(self, dim, idx, shape, dx, real_t, forcing, velocity, reset, shift=None):
+    def __init__(self, dim, idx, shape, dx, real_t, forcing, velocity, reset, shift=None, markers=None):
         import sopht.simulator as sps
 
         self.shift = shift  # eul_grid_coord_shift passed to the constructor (None = library default dx / 2)
@@ -53,10 +58,10 @@ class Body:
         self.centre0 = np.array(cx)
         if dim == 2:
             self.body, _ = bodies.make_rigid("cylinder2d", bodies.rotations_2d()[0], self.centre0)
-            cls, kw = sps.CircularCylinderForcingGrid, {"num_forcing_points": 8}
+            cls, kw = sps.CircularCylinderForcingGrid, {"num_forcing_points": MARKER_RESOLUTIONS[markers][0]}
         else:
             self.body, _ = bodies.make_rigid("sphere", bodies.rotations_3d()[0], self.centre0)
-            cls, kw = sps.SphereForcingGrid, {"num_forcing_points_along_equator": 6}
+            cls, kw = sps.SphereForcingGrid, {"num_forcing_points_along_equator": MARKER_RESOLUTIONS[markers][1]}
         self.pose = 0
         self.inter = sps.RigidBodyFlowInteraction(
             rigid_body=self.body, eul_grid_forcing_field=forcing, eul_grid_velocity_field=velocity,
@@ -100,7 +105,7 @@ class Body:
 
 
 class System:
-    def __init__(self, dim, nbodies, reset, dtype, shifts=None):
+    def __init__(self, dim, nbodies, reset, dtype, shifts=None, markers=None):
         self.dim, self.nb, self.reset = dim, nbodies, reset
         shifts = shifts or [None] * nbodies
         self.real_t = np.dtype(dtype).type
@@ -118,7 +123,7 @@ class System:
         self.ref_forcing = np.zeros((dim, *self.shape), dtype=LD)
         self.ref_forcing_mag = np.zeros((dim, *self.shape), dtype=np.float64)
         self.ref_force_total = 0.0  # sum of |marker force| spread so far (absolute rounding scale of near-zero weights)
-        self.bodies = [Body(dim, b, self.shape, self.dx, self.real_t, self.forcing, self.velocity, reset, shift=shifts[b]) for b in range(nbodies)]
+        self.bodies = [Body(dim, b, self.shape, self.dx, self.real_t, self.forcing, self.velocity, reset, shift=shifts[b], markers=(markers or [None] * nbodies)[b]) for b in range(nbodies)]
 
     # ---- reference model
     def ref_evaluate(self, b: Body, spread: bool):
@@ -221,17 +226,17 @@ class System:
         return explore.array_state_key(*parts)
 
 
-def case_history(dim, nbodies, reset, dtype, depth, shifts=None):
+def case_history(dim, nbodies, reset, dtype, depth, shifts=None, markers=None):
     real_t = np.dtype(dtype).type
     eps = float(np.finfo(real_t).eps)
     events = []
     for b in range(nbodies):
         events += [("E", b), ("L", b), ("Ta", b), ("Tb", b), ("M", b)]
     events.append(("F", None))
-    tag = f"dim={dim}:bodies={nbodies}:reset={reset}" + (f":shifts={shifts}" if shifts else "")
+    tag = f"dim={dim}:bodies={nbodies}:reset={reset}" + (f":shifts={shifts}" if shifts else "") + (f":markers={markers}" if markers else "")
 
     def build():
-        return System(dim, nbodies, reset, dtype, shifts)
+        return System(dim, nbodies, reset, dtype, shifts, markers)
 
     def apply_event(s, ev):
         s._pre_vel = s.velocity.tobytes()
@@ -326,9 +331,13 @@ def run(r) -> None:
         for shifts in ([None, 0.0], [0.0, None], [0.03125, None]):
             cases.append(dict(dim=dim, nbodies=2, reset=False, dtype="float64", depth=d2, shifts=shifts))
         cases.append(dict(dim=dim, nbodies=1, reset=True, dtype="float32", depth=d2, shifts=[0.0]))
+    # marker spacing relative to the grid: a coarse and a finely resolved body next to each other / alone
+    for dim in (2, 3):
+        cases.append(dict(dim=dim, nbodies=2, reset=False, dtype="float64", depth=d2, markers=["coarse", "fine"]))
+        cases.append(dict(dim=dim, nbodies=1, reset=True, dtype="float64", depth=d2, markers=["coarse"]))
     cases.sort(key=lambda c: -(c["nbodies"] * 10 + c["dim"]))
     r.run_cases("pi-history-bfs", "history", cases)
     r.run_cases("fresh-object-replay", "fresh_replay", [dict(dim=d, reset=x, dtype="float64") for d in (2, 3) for x in (False, True)])
-    r.bounds = {"depth_one_body": d1, "depth_two_bodies": d2, "events": ["E_i", "L_i", "T_i(1/4)", "T_i(1/8)", "M_i (3 poses)", "F (2 flow fields)"], "modes": ["accumulate", "reset"], "grid_coordinate_shift": ["default dx/2", "0.0", "dx/4"], "construction_orders": "both"}
+    r.bounds = {"depth_one_body": d1, "depth_two_bodies": d2, "events": ["E_i", "L_i", "T_i(1/4)", "T_i(1/8)", "M_i (3 poses)", "F (2 flow fields)"], "modes": ["accumulate", "reset"], "grid_coordinate_shift": ["default dx/2", "0.0", "dx/4"], "construction_orders": "both", "marker_resolution": "default (ds ~ dx), coarse (ds > 2 dx), fine (ds < dx / 2)"}
     r.extra["rule"] = "BFS over event histories on real interaction objects; state = bytes of mismatch/forcing fields, clocks, body arrays, Eulerian forcing and velocity fields; states re-entered by snapshot/restore (validated against fresh-object replays)"
     r.assumptions = ["marker kinematics taken from the forcing grid (C09's subject)", "reference interpolation/spreading uses the cosine delta in longdouble (C06/C07's subject)"]
